@@ -19,7 +19,7 @@ RULE = ("seeded random exports (0-6 sessions, both layouts, 0-4 contests, 0-6 ma
         "x pool_groups; non-trivial = some candidate has >= 2 marks or a Modified block is present; distinct = hash of "
         "(export, options)")
 REQUIRED = ["ref_compared", "meta:marks_shuffled", "meta:sorted_keys", "meta:modified_first", "layout:cards",
-            "layout:contests", "obfuscated_record_ids", "obfuscated_record_ids_whose_number_is_0", "sessions_with_modified", "sessions_whose_blocks_use_different_layouts",
+            "layout:contests", "obfuscated_record_ids", "obfuscated_record_ids_whose_number_is_0", "plain_record_ids_whose_image_number_differs", "sessions_with_modified", "sessions_whose_blocks_use_different_layouts",
             "group_options_given_as_tuple_set_or_frozenset", "duplicate_marks_contests",
             "uncounted_marks_contests", "directory_reads", "group_filtered_out"]
 ASSUMPTIONS = ["a contest appears at most once per data block of a session (the property does not say which copy wins)"]
@@ -70,6 +70,10 @@ def gen_export(rng):
                 "VotingSessionIdentifier": ""}
         if rng.random() < 0.3:
             sess["RecordId"] = "X"
+        elif rng.random() < 0.2:
+            # an image file numbered differently from the record (images renumbered on export): the record number is RecordId
+            sess["ImageMask"] = sess["ImageMask"].replace(f"_{recid:06d}*", f"_{recid + 12:06d}*")
+            sess["_mask_differs"] = True
         order = ["Original", "Modified"] if rng.random() < 0.6 else ["Modified", "Original"]
         has_mod = rng.random() < 0.45
         blocks = {"Original": gen_block(rng, all_c, layout)}
@@ -220,6 +224,8 @@ def run_case(case, rec):
                             rec.count("duplicate_marks_contests")
                         if any(not m["IsVote"] for m in con["Marks"]):
                             rec.count("uncounted_marks_contests")
+            if s.get("_mask_differs"):
+                rec.count("plain_record_ids_whose_image_number_differs")
             if s["RecordId"] == "X":
                 rec.count("obfuscated_record_ids")
                 if s["ImageMask"].split("*")[0].endswith("_000000"):
